@@ -286,6 +286,12 @@ def fam_scoping():
         ("scope:fn-param-shadows-global", "stel a = %s; functie f(a) { a + 1 }; [f(%s), a]" % (H0, H1)),
         ("scope:fn-block-scopes", "functie f(n) { stel r = n; { stel n = r + 1; { stel r = n + 1; n = r; }; r = n; }; [r, n] }; f(%s)" % H0),
         ("scope:fn-in-block", "stel r = 0; { functie f(x) { x + %s }; r = f(1); }; r" % H0),
+        ("scope:fn-in-block-reads-block-var", "stel t = %s; stel r = 0; { stel t = %s; stel f = functie() { t + 1 }; r = f(); }; [t, r]" % (H0, H1)),
+        ("scope:fn-in-branch-reads-branch-var", 'print("a"); als %s < %s { stel geheim = 7; functie lees() { geheim }; print(lees()); } anders { stel ander = 8; functie lees() { ander + 1 }; print(lees()); }; 1' % (H0, H1)),
+        ("scope:fn-in-loop-reads-loop-var", "stel teller = 100; stel i = 0; stel s = 0; zolang i < 3 { stel teller = i * 10 + %s; stel toon = functie() { teller }; s = s + toon(); i += 1; }; [s, teller]" % H0),
+        ("scope:fn-in-block-writes-block-var", "stel c = %s; stel r = 0; { stel c = 0; functie inc() { c = c + %s; c }; inc(); inc(); r = c; }; [c, r]" % (H0, H1)),
+        ("scope:fn-in-fn-in-block-reads-block-var", "stel r = 0; { stel k = %s; functie a() { functie b() { k + 1 }; b() }; r = a(); }; r" % H0),
+        ("scope:fn-in-nested-block-reads-both", "stel r = 0; { stel p = %s; { stel q = %s; functie som() { p + q }; r = som(); }; }; r" % (H0, H1)),
         ("scope:fn-in-fn", "functie outer(a) { stel g = functie(b) { b * 2 }; g(a) + 1 }; outer(%s)" % H0),
         ("scope:recursion-locals", "functie f(n) { stel mine = n * 10; als n > 0 { f(n - 1); }; mine }; f(%s)" % H0),
         ("scope:loop-body-decl", "stel s = 0; stel i = 0; zolang i < %s { stel sq = i * i; s = s + sq; i += 1; }; s" % H0),
@@ -339,6 +345,12 @@ def fam_sequences():
         out.append(("seq:str-get:" + s, 'stel s = "%s"; print("s"); s[%s - 3]' % (s, H0)))
         out.append(("seq:str-set:" + s, 'stel s = "%s"; print("s"); s[%s - 3] = "Z"; [s, lengte(s)]' % (s, H0)))
         out.append(("seq:str-len:" + s, 'stel s = "%s"; [lengte(s), lengte(s) > %s]' % (s, H0)))
+    # an index that is not an integer is a TypeError for reading and for assignment, on lists and on text, whatever the value
+    # assigned is - and the (aliased) container is unchanged
+    for cn, c, val in (("arr", "[1, 2]", "9"), ("str", '"a€b"', '"X"')):
+        for inn, idx in (("true", "ja"), ("false", "nee"), ("float", "1.0"), ("text", '"0"'), ("list", "[0]"), ("fn", "functie() { 0 }"), ("null", "als nee { 0 }")):
+            out.append(("seq:index-type:%s:get:%s" % (cn, inn), 'stel c = %s; print("x"); c[%s]' % (c, idx)))
+            out.append(("seq:index-type:%s:set:%s" % (cn, inn), 'stel c = %s; stel d = c; print("x"); c[%s] = %s; [c, d]' % (c, idx, val)))
     out += [
         ("seq:alias", "stel a = [1, 2, 3]; stel b = a; b[%s] = %s; [a, b]" % (H0, H1)),
         ("seq:alias-nested", "stel in = [1, 2]; stel out = [in, in, 3]; in[%s] = %s; stel x = out[0]; stel y = out[1]; [x[0], x[1], y[0], y[1]]" % (H0, H1)),
@@ -453,6 +465,15 @@ def fam_boundary():
         ("bnd:nonascii-index2", 'stel s = "🇳🇱"; [s[%s], lengte(s)]' % H0),
         ("bnd:int-of-big-float", "int(1000000000000000000000.0)"),
         ("bnd:int-of-big-text", 'int("9000000000000000000")'),
+        # int(float) at the ends of the integer range: 2^60 - 1 is not a float (it rounds to 2^60, which is out of range); the
+        # largest float below 2^60 is 2^60 - 128; -2^60 is MIN_INT itself; the next float below it is -2^60 - 256
+        ("bnd:int-of-float-max-roundtrip", 'print("a"); int(float(1152921504606846975))'),
+        ("bnd:int-of-float-two-pow-60", 'print("a"); int(1152921504606846976.0)'),
+        ("bnd:int-of-float-just-below-max", "[int(1152921504606846848.0), int(float(1152921504606846848)), int(float(576460752303423488))]"),
+        ("bnd:int-of-float-min", "stel lo = 0 - 1152921504606846975 - 1; [int(float(lo)) == lo, int(0.0 - 1152921504606846976.0)]"),
+        ("bnd:int-of-float-just-below-min", 'print("a"); int(0.0 - 1152921504606847232.0)'),
+        ("bnd:int-of-float-computed-two-pow-60", 'stel f = 1.0; stel i = 0; zolang i < 60 { f = f * 2.0; i += 1; }; print("a"); int(f)'),
+        ("bnd:int-of-float-computed-just-below", "stel f = 1.0; stel i = 0; zolang i < 59 { f = f * 2.0; i += 1; }; [int(f), int(f + f - 128.0), int(0.0 - f - f)]"),
         ("bnd:int-of-huge-text", 'int("99999999999999999999999")'),
         ("bnd:int-of-text", '[int("12"), int(" 7 "), int("-3")]'),
         ("bnd:int-of-bad-text", 'print("a"); int("twaalf")'),
@@ -847,6 +868,10 @@ DIRECTED_SESSIONS = [
     ("error-in-fn-with-live-heap", ["stel a = [1.5, \"k\"]", "functie h() { stel t = [2.5]; t[3] }; h()", "functie w() { 1 }; w(); stel z = [7.25 + 1.0]; 0", "a"]),
     ("compile-error-in-block-then-shadow", ["stel a = %s" % H0, "als a == a { stel a = 2; nope }", "a", "stel b = 10; nope", "a + 1"]),
     ("compile-error-in-loop-then-loop", ["stel a = 0", "zolang a < 3 { a += 1; nope }", "zolang a < 3 { a += 1; }; a", "stop"]),
+    ("compile-error-in-loop-condition-then-volgende", ["stel i = 0", "zolang b { i = 100 }", "zolang i < 3 { i = i + 1 }; i = i + 10; als i < 25 { volgende }; i", "i"]),
+    ("compile-error-in-loop-condition-then-stop", ["stel a = 0", "zolang nope < 3 { a += 1 }", "stel q = 1; stop", "a", "q"]),
+    ("compile-error-in-nested-loop-condition", ["stel a = 0", "zolang a < 1 { a = a; zolang nope { } }", "als a == 0 { volgende }; 5", "a"]),
+    ("compile-error-in-fn-loop-condition", ["stel a = 0", "functie g() { zolang nope { 1 } }", "stop", "functie h() { volgende }; 1", "a"]),
     ("globals-many-lines", ["stel a = %s" % H0, "stel b = a + 1", "a = b * 2; a", "stel c = [a, b]", "c[%s]" % H2, "a + b"]),
     ("redeclare-across-lines", ["stel a = 1", "stel a = %s + 1" % H1, "a", "{ stel a = 5; a }", "a"]),
     ("redeclare-fails-at-run-time", ["stel a = 1", "stel a = [1][%s]" % H2, "a"]),
